@@ -118,6 +118,10 @@ pub struct Built {
     pub nontrivial: bool,
     /// canonical text of the tested instruction of every block
     pub tested: Vec<String>,
+    /// more than ~2000 instruction executions (long loops / repetitions): not run under single-stepping
+    pub long_loop: bool,
+    /// a tested POPF sets the trap flag: the driver prompts until the next block clears it
+    pub sets_tf: bool,
 }
 
 struct Runner {
@@ -202,20 +206,65 @@ pub fn build(c: &FCase, openq: &Quirks) -> Built {
     let mut classes: Vec<String> = Vec::new();
     let mut tested: Vec<String> = Vec::new();
     let mut nontrivial = false;
+    let mut work: u64 = 0;
+    let mut sets_tf = false;
     'blocks: for (k, b) in c.blocks.iter().enumerate() {
         let mut insn = avoid_open(&b.insn, openq);
         let mut r = b.regs;
         if insn.prefix.is_some() {
             r[2] = if b.vals[7] & 7 != 0 { r[2] % 24 } else { r[2] % 1500 };
+            work += r[2] as u64;
         }
         if insn.mn == "popf" {
-            r[0] &= !TF;
+            // one POPF in three loads a word with the trap flag set: the instructions up to the next block's POPF are then
+            // single-stepped by the driver (prompts answered 'n', chatter removed) and the flag word must stay as loaded
+            if b.vals[8] % 3 == 0 {
+                r[0] |= TF;
+                sets_tf = true;
+            } else {
+                r[0] &= !TF;
+            }
+        }
+        // operand idioms that text-level shortcuts key on: immediates 0 / 1 / all ones, both operands the same register
+        match b.vals[9] % 16 {
+            0 | 1 | 2 => {
+                let pick = [0u16, 1, 0xFFFF][(b.vals[9] % 16) as usize];
+                let is_shift = matches!(insn.mn, "sal" | "shl" | "sar" | "shr" | "rol" | "ror" | "rcl" | "rcr");
+                for o in insn.ops.iter_mut() {
+                    if let Opd::Imm(v, k) = o {
+                        if insn.mn != "int" {
+                            *v = match k {
+                                ImmKind::SB | ImmKind::UB => pick & 0xFF,
+                                _ => pick,
+                            };
+                            if is_shift {
+                                *v = pick & 1;
+                            }
+                        }
+                    }
+                }
+            }
+            3 => {
+                if insn.ops.len() == 2 {
+                    if let (Opd::R16(a), Opd::R16(_)) = (insn.ops[0].clone(), insn.ops[1].clone()) {
+                        insn.ops[1] = Opd::R16(a);
+                    }
+                    if let (Opd::R8(a), Opd::R8(_)) = (insn.ops[0].clone(), insn.ops[1].clone()) {
+                        if !matches!(insn.mn, "sal" | "shl" | "sar" | "shr" | "rol" | "ror" | "rcl" | "rcr") {
+                            insn.ops[1] = Opd::R8(a);
+                        }
+                    }
+                }
+            }
+            _ => {}
         }
         let is_loop = matches!(insn.mn, "loop" | "loope" | "loopz" | "loopne" | "loopnz");
         let jkind = if c.fam == Fam::Jumps { if is_loop { b.jkind } else { 0 } } else { 0 };
         if jkind != 0 {
             r[2] = if b.vals[7] & 7 != 0 { r[2] % 40 } else { r[2] % 3000 };
+            work += 2 * (if r[2] == 0 { 65536 } else { r[2] as u64 });
         }
+        work += 40;
         let mut emit = |rn: &mut Runner, code: &mut Vec<Item>, i: Insn| {
             rn.run(&i);
             code.push(Item::Ins(i));
@@ -399,7 +448,7 @@ pub fn build(c: &FCase, openq: &Quirks) -> Built {
             pr(&rn, &mut code, PrintStmt::MemRange(lo, hi));
         }
     }
-    Built { prog: Program { data, code }, events, ev_block, classes, nontrivial, tested }
+    Built { prog: Program { data, code }, events, ev_block, classes, nontrivial, tested, long_loop: work > 2500, sets_tf }
 }
 
 pub fn layout_of(c: &FCase) -> Layout {
@@ -409,9 +458,14 @@ pub fn layout_of(c: &FCase) -> Layout {
 pub fn eval(prop: &str, c: &FCase, openq: &Quirks) -> CaseOutcome {
     let b = build(c, openq);
     let rendered = render_program(&b.prog, &layout_of(c));
-    let out = run_cli(rendered.text.as_bytes(), Stdin::Closed, false, 16 << 20, 120_000);
+    // one program in four is single-stepped (-i) with every prompt answered 'n': the prompt chatter is removed and
+    // the rest must be what the plain run prints (stepping is transparent; a divide error still ends the program)
+    let interpreted = c.choices.first().map(|x| x & 3 == 3).unwrap_or(false) && !b.long_loop;
+    let stepped = interpreted || b.sets_tf;
+    let script: Vec<u8> = if stepped { b"n\n".repeat(6000) } else { vec![] };
+    let out = run_cli(rendered.text.as_bytes(), if stepped { Stdin::Data(&script) } else { Stdin::Closed }, interpreted, 16 << 20, 120_000);
     let exp = crate::c17::blank_lines(&normalise(&b.events));
-    let replay = json!({"kind":"cli","source":rendered.text,"stdin":"","interpreted":false,"blank_line_numbers":true,
+    let replay = json!({"kind":"cli","source":rendered.text,"stdin":if stepped { "n\n".repeat(6000) } else { String::new() },"interpreted":interpreted,"blank_line_numbers":true,"drop_prompt_chatter":stepped,
         "tested": b.tested, "expected_events": exp.iter().map(|e| format!("{:?}", e)).collect::<Vec<_>>()});
     match &out.status {
         Status::Timeout | Status::SpawnError(_) => return CaseOutcome::Inconclusive(format!("{:?}", out.status)),
@@ -429,6 +483,7 @@ pub fn eval(prop: &str, c: &FCase, openq: &Quirks) -> CaseOutcome {
         Ok(t) => t,
         Err(e) => return CaseOutcome::Fail { key: format!("{}|l3|unparsable-output", lp), what: format!("[{}]: {}", b.tested.join("; "), e), replay },
     };
+    let toks: Vec<Ev> = if stepped { toks.into_iter().filter(|e| !matches!(e, Ev::About(_) | Ev::TrapNote | Ev::Prompt | Ev::Int3(_))).collect() } else { toks };
     let obs = crate::c17::blank_lines(&toks);
     if exp != obs {
         let d = crate::c17::first_diff(&exp, &obs);
@@ -446,7 +501,14 @@ pub fn eval(prop: &str, c: &FCase, openq: &Quirks) -> CaseOutcome {
         let mn = ins.split(|ch: char| ch == ' ' || ch == ',').next().unwrap_or("").to_string();
         return CaseOutcome::Fail { key: format!("{}|l3|{}|{}", lp, mn, kind), what: format!("through the CLI, block {} ('{}'): {}", blk, ins, d), replay };
     }
-    CaseOutcome::Pass { nontrivial: b.nontrivial, classes: b.classes, digest: fnv_str(&rendered.text) }
+    let mut classes = b.classes;
+    if interpreted {
+        classes.push("l3/single-stepped".into());
+    }
+    if b.sets_tf {
+        classes.push("l3/trap-flag-set-by-popf".into());
+    }
+    CaseOutcome::Pass { nontrivial: b.nontrivial, classes, digest: fnv_str(&rendered.text) ^ stepped as u64 }
 }
 
 /// run `n` family programs for the property that owns the family
